@@ -69,7 +69,7 @@ fn run_case(ctx: &Ctx, progs: &[Vec<Op>], forced: Option<&[usize]>, rng: &mut Rn
         }));
     }
     sched.settle(Duration::from_secs(5));
-    let r = model.ask(&format!("init 0 {}", progs_sx(progs)));
+    let r = model.ask(&format!("init 1 {}", progs_sx(progs)));
     assert_eq!(r, "ok");
     let mut out = Outcome { steps: 0, two_writers: 0, writer_with_reader: 0, disagreement: None, finished: false, entries_left: 0, stuck: false };
     let mut waiting: Vec<bool> = vec![false; n];
@@ -185,7 +185,7 @@ pub fn run(ctx: &Ctx) -> Report {
         if o.two_writers > 0 {
             rep.oracle_fail(case, format!("{} times a second thread obtained the write lock of page 7 while another held it", o.two_writers), "pagelock:two-writers:stale-cleanup".into());
         } else {
-            rep.notes.push("the Lean counterexample schedule did NOT produce two writers on the real code (finding not reproduced)".into());
+            rep.notes.push("forced schedule of C36.stale_cleanup_counterexample: no second writer on the current code (defect fixed by /repo f641426; the model runs with fixed = true)".into());
         }
     }
 
